@@ -239,34 +239,7 @@ func compare(want, got []tagged, all []*mBlock, f filt, from, to uint64) *diffKi
 				return &diffKind{Kind: "duplicate", Index: i, Event: g}
 			}
 			// an event the oracle does not list
-			if w, ok := wantPos[g.pos()]; ok {
-				fld := "body"
-				switch {
-				case w.BHash != g.BHash:
-					fld = "block_hash"
-				case w.TxHash != g.TxHash:
-					fld = "transaction_hash"
-				}
-				return &diffKind{Kind: "extra-wrong-tag", Field: fld, Index: i, Event: g, Detail: "expected " + w.String()}
-			}
-			if g.Block < from || g.Block > to {
-				return &diffKind{Kind: "extra-outside-range", Index: i, Event: g}
-			}
-			// does the canonical chain hold an event at that position at all?
-			for _, b := range all {
-				if b.Num != g.Block {
-					continue
-				}
-				if int(g.TxIdx) < len(b.Txs) && int(g.EvIdx) < len(b.Txs[g.TxIdx].Events) {
-					e := b.Txs[g.TxIdx].Events[g.EvIdx]
-					if bodyOf(e) == g.Body && b.Txs[g.TxIdx].Hash.String() == g.TxHash {
-						if !f.matches(e) {
-							return &diffKind{Kind: "extra-nonmatching", Index: i, Event: g}
-						}
-					}
-				}
-			}
-			return &diffKind{Kind: "extra-not-canonical", Index: i, Event: g}
+			return explainExtra(g, i, wantPos, all, f, from, to)
 		}
 	}
 	for i, w := range want {
@@ -280,6 +253,67 @@ func compare(want, got []tagged, all []*mBlock, f filt, from, to uint64) *diffKi
 		}
 	}
 	return &diffKind{Kind: "order", Index: 0}
+}
+
+// explainExtra says why an observed event is not in the oracle's list.
+func explainExtra(g tagged, i int, wantPos map[string]tagged, all []*mBlock, f filt, from, to uint64) *diffKind {
+	var blk *mBlock
+	for _, b := range all {
+		if b.Num == g.Block {
+			blk = b
+		}
+	}
+	if blk == nil {
+		return &diffKind{Kind: "extra-not-canonical", Index: i, Event: g, Detail: "no such block on the canonical chain"}
+	}
+	// is it, tags and all, an event of the canonical block?
+	if int(g.TxIdx) < len(blk.Txs) && int(g.EvIdx) < len(blk.Txs[g.TxIdx].Events) {
+		e := blk.Txs[g.TxIdx].Events[g.EvIdx]
+		if bodyOf(e) == g.Body && blk.Txs[g.TxIdx].Hash.String() == g.TxHash {
+			switch {
+			case g.Block < from || g.Block > to:
+				return &diffKind{Kind: "extra-outside-range", Index: i, Event: g}
+			case feltStr(blk.Hash) != g.BHash:
+				return &diffKind{Kind: "extra-wrong-tag", Field: "block_hash", Index: i, Event: g, Detail: "canonical block hash " + feltStr(blk.Hash)}
+			case !f.matches(e):
+				return &diffKind{Kind: "extra-nonmatching", Index: i, Event: g}
+			}
+			return &diffKind{Kind: "duplicate", Index: i, Event: g}
+		}
+	}
+	if w, ok := wantPos[g.pos()]; ok {
+		fld := "body"
+		switch {
+		case w.BHash != g.BHash:
+			fld = "block_hash"
+		case w.TxHash != g.TxHash:
+			fld = "transaction_hash"
+		}
+		if fld != "body" {
+			return &diffKind{Kind: "extra-wrong-tag", Field: fld, Index: i, Event: g, Detail: "expected " + w.String()}
+		}
+	}
+	// the same event under other indices?
+	for ti := range blk.Txs {
+		if blk.Txs[ti].Hash.String() != g.TxHash {
+			continue
+		}
+		for ei, e := range blk.Txs[ti].Events {
+			if bodyOf(e) != g.Body {
+				continue
+			}
+			fld := "event_index"
+			if uint(ti) != g.TxIdx {
+				fld = "transaction_index"
+			}
+			return &diffKind{Kind: "extra-wrong-tag", Field: fld, Index: i, Event: g,
+				Detail: fmt.Sprintf("the canonical block has this event at tx %d event %d", ti, ei)}
+		}
+	}
+	if g.Block < from || g.Block > to {
+		return &diffKind{Kind: "extra-outside-range", Index: i, Event: g}
+	}
+	return &diffKind{Kind: "extra-not-canonical", Index: i, Event: g, Detail: "the canonical block at that height holds no such event"}
 }
 
 // ---------------------------------------------------------------- history context
